@@ -3,7 +3,7 @@ from vlib import sesscheck
 
 ID = 'C10'
 LEVEL = 'exploration'
-RULE = "Same program space as C09 with read operations weighted up: after modifications the session reads attributes, to-one references, collection iteration/len/count()/is_empty()/in, Entity[pk], get()/exists()/select() by keyword, lambda filters, relationship filters, count/sum/min/max and to_dict(); every answer is compared with the reference store's current (unflushed) state. Non-trivial = a read issued in a session that has made at least one modification; distinct by program hash."
+RULE = "Same program space as C09 with read operations weighted up: after modifications the session reads attributes, to-one references, collection iteration/len/count()/is_empty()/in, Entity[pk], get()/exists()/select() by keyword, lambda filters, relationship filters, count/sum/min/max and to_dict(); every answer is compared with the reference store's current (unflushed) state. Non-trivial = a read issued in a session that has made at least one modification; distinct by program hash. A share of the programs (one third; one half for C11/C13/C15) comes from the hub family: every relationship starts at one entity, with cascading/unlinking relationships declared around a refusing one, populated, and then aimed operations (pending updates of children, pending removals on the hub collections, new children with explicit keys) precede the delete of the hub, so that deletes refused after part of their cascade are common."
 ASSUMPTIONS = ['live SQLite (in-memory) with foreign keys enforced immediately',
                'reference store vlib/refstore.py written from the documented relationship/cascade/key semantics (DESIGN.md section 7a)',
                'table and column names are taken from the mapping metadata (names only)']
